@@ -196,12 +196,17 @@ def run_one(tape, opts):
         raise
     calls_model = [("start",)]
     caller_objs = []
+    # a second tree of the same shape, alive at the same time, fed its own events between the main one's
+    decoy = None
+    if tape.chance("config", 1, 3, "decoy-tree"):
+        w2, b2 = World(), Built()
+        decoy = (build(tree, w2, b2), b2, w2, [("start",)])
 
     def drain(all_=False):
         progressed = True
         while progressed:
             progressed = False
-            for n, q, child in built.queues:
+            for n, q, child in built.queues + (decoy[1].queues if decoy is not None else []):
                 while q.items:
                     item = dict(q.items.pop(0))
                     ev = item.pop("event")
@@ -220,7 +225,9 @@ def run_one(tape, opts):
     t_lo = clock.peek()
     try:
         root.startTestRun()
-        for ev in events:
+        if decoy is not None:
+            decoy[0].startTestRun()
+        for i, ev in enumerate(events):
             clock.tick()
             kw = {}
             fields = {}
@@ -240,10 +247,18 @@ def run_one(tape, opts):
                     fields[k] = v
             calls_model.append(("status", fields))
             root.status(**kw)
+            if decoy is not None:
+                dkw = {"test_id": "decoy%d" % i, "test_status": ("fail", "inprogress", None)[i % 3], "test_tags": {"dk%d" % (i % 2)},
+                       "route_code": "dr" if i % 2 else None, "file_name": "dlog", "file_bytes": b"d%d" % i}
+                decoy[3].append(("status", dict(dkw, test_tags=frozenset(dkw["test_tags"]))))
+                decoy[0].status(**dkw)
             if tape.chance("schedule", 1, 2, "drain-now"):
                 drain()
         root.stopTestRun()
         calls_model.append(("stop",))
+        if decoy is not None:
+            decoy[0].stopTestRun()
+            decoy[3].append(("stop",))
         drain(all_=True)
     except Exception as e:   # noqa: inputs are in the property's domain; a decorator must not raise
         import traceback
@@ -261,43 +276,10 @@ def run_one(tape, opts):
             out.violate("caller-arg-mutated", "test_tags", f"caller's {kind} {sorted(snap)} became {sorted(obj)}; tree {tree}")
             break
     if raised is None:
-        exp_sinks, exp_ff = {}, {}
-        expected(tree, calls_model, exp_sinks, exp_ff)
-        for n, sink in built.sinks.items():
-            got = [e for e in world.events if e.target == sink._name]
-            want = exp_sinks.get(n, [])
-            gm = [("start",) if e.method == "startTestRun" else ("stop",) if e.method == "stopTestRun" else ("status", e.data) for e in got]
-            if len(gm) != len(want):
-                out.violate("forward-mismatch", "call-count-" + ("lost" if len(gm) < len(want) else "duplicated"),
-                            f"sink{n}: got {len(gm)} calls, expected {len(want)}; tree {tree}")
-                continue
-            for g, w in zip(gm, want):
-                if g[0] != w[0]:
-                    out.violate("forward-mismatch", "order", f"sink{n}: got {g[0]} expected {w[0]}")
-                    break
-                if g[0] != "status":
-                    continue
-                bad = None
-                for f in FIELDS:
-                    wv = w[1].get(f, DEFAULTS.get(f))
-                    gv = g[1].get(f)
-                    if f == "timestamp" and wv == "CLOCK":
-                        us = vclock.us_of(gv)
-                        if gv is None or us is None or not (t_lo < us <= t_hi):
-                            bad = f"timestamp-not-filled"
-                        continue
-                    if f == "test_tags":
-                        # "no tags" may travel as None or as an empty set: the property does not say which
-                        gv, wv = gv or None, wv or None
-                    if gv != wv:
-                        bad = f
-                        break
-                if bad:
-                    out.violate("forward-mismatch", "field:" + bad, f"sink{n}: received {g[1]} expected {w[1]}; tree {tree}")
-                    break
-        for n, marks in built.failfast.items():
-            if len(marks) != exp_ff.get(n, 0):
-                out.violate("forward-mismatch", "failfast-callback-count", f"failfast{n}: {len(marks)} callbacks, expected {exp_ff.get(n)}")
+        _compare(out, tree, built, world, calls_model, t_lo, t_hi, "")
+        if decoy is not None:
+            _compare(out, tree, decoy[1], decoy[2], decoy[3], t_lo, t_hi, "decoy:")
+            out.probe("decoy-tree")
     # accounting
     leaves = len(built.sinks) + len(built.failfast)
     out.nontrivial = leaves >= 2 or _depth(tree) >= 2
@@ -315,6 +297,47 @@ def run_one(tape, opts):
         out.sample = {"tree": tree, "events": [{k: (v.decode() if isinstance(v, bytes) else v) for k, v in e.items()} for e in events],
                       "sink_calls": {s._name: sum(1 for e in world.events if e.target == s._name) for s in built.sinks.values()}}
     return out
+
+
+def _compare(out, tree, built, world, calls_model, t_lo, t_hi, label):
+    """Every sink's log against the model of the tree (pure functions of the calls made at the root)."""
+    exp_sinks, exp_ff = {}, {}
+    expected(tree, calls_model, exp_sinks, exp_ff)
+    for n, sink in built.sinks.items():
+        got = [e for e in world.events if e.target == sink._name]
+        want = exp_sinks.get(n, [])
+        gm = [("start",) if e.method == "startTestRun" else ("stop",) if e.method == "stopTestRun" else ("status", e.data) for e in got]
+        if len(gm) != len(want):
+            out.violate("forward-mismatch", label + "call-count-" + ("lost" if len(gm) < len(want) else "duplicated"),
+                        f"sink{n}: got {len(gm)} calls, expected {len(want)}; tree {tree}")
+            continue
+        for g, w in zip(gm, want):
+            if g[0] != w[0]:
+                out.violate("forward-mismatch", label + "order", f"sink{n}: got {g[0]} expected {w[0]}")
+                break
+            if g[0] != "status":
+                continue
+            bad = None
+            for f in FIELDS:
+                wv = w[1].get(f, DEFAULTS.get(f))
+                gv = g[1].get(f)
+                if f == "timestamp" and wv == "CLOCK":
+                    us = vclock.us_of(gv)
+                    if gv is None or us is None or not (t_lo < us <= t_hi):
+                        bad = f"timestamp-not-filled"
+                    continue
+                if f == "test_tags":
+                    # "no tags" may travel as None or as an empty set: the property does not say which
+                    gv, wv = gv or None, wv or None
+                if gv != wv:
+                    bad = f
+                    break
+            if bad:
+                out.violate("forward-mismatch", label + "field:" + bad, f"sink{n}: received {g[1]} expected {w[1]}; tree {tree}")
+                break
+    for n, marks in built.failfast.items():
+        if len(marks) != exp_ff.get(n, 0):
+            out.violate("forward-mismatch", label + "failfast-callback-count", f"failfast{n}: {len(marks)} callbacks, expected {exp_ff.get(n)}")
 
 
 def _depth(node):
